@@ -198,7 +198,7 @@ def merge(results):
             elif isinstance(v, bool) and isinstance(merged["flags"][k], bool):
                 merged["flags"][k] = merged["flags"][k] and v
             elif isinstance(v, (int, float)) and not isinstance(v, bool) and isinstance(merged["flags"][k], (int, float)):
-                merged["flags"][k] = merged["flags"][k] + v
+                merged["flags"][k] = max(merged["flags"][k], v)
             elif isinstance(v, list) and isinstance(merged["flags"][k], list):
                 for item in v:
                     if item not in merged["flags"][k]:
@@ -347,6 +347,9 @@ def finish(args, mod, merged, wall):
         "shards": args.shards or getattr(mod, "SHARDS", {}).get(args.tier, 1),
         "repo": env.HV_REPO,
     }
+    for name in ("states", "transitions"):
+        if name in merged["counters"]:
+            coverage[name] = merged["counters"][name]
     coverage["covered_classes"] = {k: sorted(v)[:80] for k, v in merged.get("covers", {}).items()}
     for k, v in merged["flags"].items():
         if k == "traceback":
